@@ -354,9 +354,9 @@ def envelope_report(room, sensors):
 def _tier_sets(quick):
     if quick:
         return {
-            'ns': (2, 3, 4), 'nplace': 3, 'hps': ('r0', 'r1', 'mid'), 'aims': (0,),
-            'vis': VIS_LINKABLE, 'walks': ('w21', 'floor5', 'w27'), 'ms': (3, 5, 10),
-            'ord_nm': ((2, 3), (3, 3), (3, 5), (4, 3), (4, 5)), 'unl_ms': (3, 5), 'unl_hps': ('r0',),
+            'ns': (2, 3, 4), 'nplace': 2, 'hps': ('r0', 'mid'), 'aims': (0,),
+            'vis': VIS_LINKABLE, 'walks': ('w21', 'floor5'), 'ms': (3, 5, 10),
+            'ord_nm': ((2, 3), (3, 3), (4, 5)), 'unl_ms': (3, 5), 'unl_hps': ('r0',),
         }
     return {
         'ns': (2, 3, 4, 5, 6), 'nplace': 4, 'hps': HEIGHT_PATTERNS, 'aims': (0, 1),
